@@ -50,8 +50,7 @@ package spec
 
 //@ func (Timestamp).Time
 //@   property C12, C06
-//@   requires t <= 9223372036854775807
-//@   ensures nanos: unixNano(result) == t * 1000000
+//@   ensures nanos: t <= 9223372036854775807 ==> unixNano(result) == t * 1000000
 //@   assigns nothing
 
 //@ func AsTimestamp
